@@ -43,20 +43,27 @@ func ParseIdentity(
 			return nil, err
 		}
 
-		if password != "" {
-			for _, identity := range identities {
-				if identity.PrivateKey == nil {
-					return nil, config.ErrIdentityUnparsable
+		for _, identity := range identities {
+			// Generated keys are always locked, with an empty password too
+			if password == "" && (identity.PrivateKey == nil || !identity.PrivateKey.Encrypted) {
+				continue
+			}
+
+			if identity.PrivateKey == nil {
+				return nil, config.ErrIdentityUnparsable
+			}
+
+			if err := identity.PrivateKey.Decrypt([]byte(password)); err != nil {
+				return nil, err
+			}
+
+			for _, subkey := range identity.Subkeys {
+				if subkey.PrivateKey == nil {
+					continue
 				}
 
-				if err := identity.PrivateKey.Decrypt([]byte(password)); err != nil {
+				if err := subkey.PrivateKey.Decrypt([]byte(password)); err != nil {
 					return nil, err
-				}
-
-				for _, subkey := range identity.Subkeys {
-					if err := subkey.PrivateKey.Decrypt([]byte(password)); err != nil {
-						return nil, err
-					}
 				}
 			}
 		}
